@@ -9,7 +9,8 @@ RULE = ("Every civil day of the selected years (thorough: all years -4712..6000,
         "years + -4712..-4700, 1570..1600, 5990..6000) is built with "
         "Epoch(y, m, d) and read back; oracle = independent day counter "
         "(exact float equality).  Per month: refusal probes day 0, 0.5, "
-        "len+1, len+1.0, 32; month given as short/long/mixed-case name on "
+        "-1, 0.999, every day len+1..33, len+1.0, len+1.5, 99, 366 in seven "
+        "month forms; month given as short/long/mixed-case name on "
         "first and last day.  Non-trivial = month end, leap day, any day of a "
         "century year, year <= 0, reform days 1582-10-04/15, refusal probe, "
         "name-form probe; distinct by (y, m, d, probe).")
@@ -171,7 +172,11 @@ def case_year(mon, y):
     # tuple or a list)
     for m in range(1, 13):
         ln = dc.month_len(y, m)
-        for bad in (0, 0.5, ln + 1, float(ln + 1), 32):
+        # every day number past the month's end up to 33 (31 February is
+        # two or three past), below-one values, and far-out ones
+        bads = [0, 0.5, -1, 0.999, float(ln + 1), ln + 1.5, 99, 366]
+        bads += list(range(ln + 1, 34))
+        for bad in bads:
             forms = (("int", (y, m, bad)),
                      ("float-month", (y, float(m), bad)),
                      ("short-name", (y, SHORT[m - 1], bad)),
@@ -181,7 +186,7 @@ def case_year(mon, y):
                      ("with-time", (y, LONG[m - 1].upper(), int(bad),
                                     0, 0, 0.0)))
             for fname, a in forms:
-                if fname == "with-time" and bad == 0.5:
+                if fname == "with-time" and bad != int(bad):
                     continue
                 mon.evals += 1
                 mon.cls("refusal-probe", (y, m, "bad", bad),
